@@ -95,7 +95,7 @@ ObsAction(e) ==
     \/ PlainAction(e) /\ UNCHANGED avars
     \/ e.op = "DropGuard" /\ DropGuardA(e.h)
     \/ e.op \in PollVias /\ e.h \notin lockWait /\ ~ReadNow /\ PollBlocked(e.h, e.op)
-    \/ e.op \in PollVias /\ e.h \in lockWait /\ PollWaiting(e.h, e.op)
+    \/ e.op \in PollVias /\ e.h \in lockWait /\ PollWaiting(e.h, e.op, e.ret.t = "Pending")
     \/ e.op = "StartSet" /\ StartWriter(e.h, e.n, "Set", e.a)
     \/ e.op = "StartSetIfNotEq" /\ StartWriter(e.h, e.n, "SetIfNotEq", e.a)
     \/ e.op = "StartUpdate" /\ StartWriter(e.h, e.n, "Update", e.a)
